@@ -464,6 +464,7 @@ def c18_extra(R, tier, seed):
         gen_walk(p[0], seed, wp)
         cmds.append([bins[p], "walk", wp]); metas.append((p, "walk", wp))
         cmds.append([bins[p], "pairs"]); metas.append((p, "pairs", ""))
+        cmds.append([bins[p], "plans", str(seed + 11)]); metas.append((p, "plans", ""))
     outs = vc.parallel(cmds, env=env)
     n_ok = 0
     for (p, what, wp), (rc2, o2) in zip(metas, outs):
@@ -475,6 +476,20 @@ def c18_extra(R, tier, seed):
             n_ok += 1
     R.coverage["engines"]["sizes_under_sanitizers"] = {"state_counts": ns, "runs_clean": n_ok}
     R.coverage["evaluations"] += n_ok
+    # plan handles on the largest machines (default task capacity = state count, up to 255 = the value of the invalid index): iteration through
+    # Plan, const Plan and CPlan must end (plain builds shared with C12 / C14; only non-termination counts for C18 here)
+    big = [p for p in sizes_plan(tier, seed) if p[0] >= 250 or p[0] in (127, 128, 129)]
+    ok, bins, log, out = sizes_binaries(big)
+    if not ok:
+        print("INCONCLUSIVE: sizes harness does not build:", log)
+        return 2
+    outs = vc.parallel([[bins[p], "plans", str(seed + 12)] for p in big], timeout=900)
+    for p, (rc2, o2) in zip(big, outs):
+        if rc2 != 0 and ("does not end" in o2 or "then stop" in o2 or rc2 < 0):
+            lp = os.path.join(od, "plans-%d-%d-%s.log" % p)
+            open(lp, "w").write(o2[-4000:])
+            R.violation(lp, "plan iteration does not terminate / runs past the task array (N=%d mode=%d[+1 head,+2 automatic], %s header): %s  [replay: %s plans %d]" % (p[0], p[1], p[2], o2.strip()[:300], bins[p], seed + 12))
+    R.coverage["engines"]["plan_handles_on_big_machines"] = {"state_counts": sorted(set(p[0] for p in big))}
     return 0
 
 
